@@ -115,6 +115,9 @@ dev_impl! {
             out.push(("semifinite-compose-finite", un(pa.compose(&ra))));
             out.push(("semifinite-compose-labels", match pa.compose(&la) { None => Val::Lab(None), x => un(x) }));
             out.push(("semifinite-labels-not-composable-on-the-left", Val::Bool(la.compose(&pa).is_none())));
+            // a finite function ends in a finite set, the wrapper's `Identity` lives on the label set:
+            // codomain and domain disagree (nothing is asserted about label-array ; Identity)
+            out.push(("semifinite-finite-then-label-set-identity-not-composable", Val::Bool(pa.compose(&SemifiniteArrow::Identity).is_none())));
             out.push(("semifinite-identity", un(Some(<SemifiniteArrow<K, L> as Arrow>::identity(SemifiniteObject::Finite(c.a))))));
             let obj = |o: SemifiniteObject<K, L>| -> Option<usize> { match o { SemifiniteObject::Finite(n) => Some(n), SemifiniteObject::Set(_) => None } };
             out.push(("semifinite-types", Val::F(Some((vec![obj(pa.source()).unwrap_or(usize::MAX), obj(pa.target()).unwrap_or(usize::MAX), obj(la.source()).unwrap_or(usize::MAX), obj(la.target()).map_or(0, |_| 1)], 0)))));
@@ -285,6 +288,7 @@ fn control_ref(c: &Case, name: &str) -> Val {
         "semifinite-compose-finite" => Val::F(if p.1 == r.0.len() { Some((p.0.iter().map(|i| r.0[*i]).collect(), r.1)) } else { None }),
         "semifinite-compose-labels" => Val::Lab(if p.1 == c.labels.len() { Some(p.0.iter().map(|i| c.labels[*i]).collect()) } else { None }),
         "semifinite-labels-not-composable-on-the-left" => Val::Bool(true),
+        "semifinite-finite-then-label-set-identity-not-composable" => Val::Bool(true),
         "semifinite-identity" => Val::F(Some(((0..a).collect(), a))),
         // source of p, target of p, source of the label array (its length), target of the label array is not finite
         "semifinite-types" => Val::F(Some((vec![p.0.len(), p.1, c.labels.len(), 0], 0))),
